@@ -200,6 +200,21 @@ pub fn run(ctx: &mut Ctx) {
         thread_local! { static T: Tables = Tables::build(); }
         T.with(|t| oracle_skip(t, c, p))
     });
+    ctx.run_prop("skip_semantics_stack_churn", n_skip / 2, || crate::gen_vm::churn_case(&Tables::build()), |c, p| {
+        thread_local! { static T: Tables = Tables::build(); }
+        T.with(|t| oracle_skip(t, c, p))
+    });
+    // every failing step inside a program: the state carried by the error equals the state before the step
+    // (the lock-step oracle compares them model-free); reached states differ from builder-built ones in
+    // whatever the stacks remember of their history
+    ctx.run_prop("failing_steps_in_programs", n_skip / 2, || proptest::prop_oneof![crate::gen_vm::churn_case(&Tables::build()), program_case(&Tables::build(), shape)], |c, p| {
+        thread_local! { static T: Tables = Tables::build(); }
+        T.with(|t| {
+            let stats = crate::vm_oracle::vm_oracle(t, c, &crate::vm_oracle::VmOpts { sweep: false, full_sweep_upto: 0, labels: false }, p)?;
+            p.nontrivial = stats.effective_steps >= 1;
+            Ok(())
+        })
+    });
     // error classes hit: (instruction, skip|abort)
     let mut missing = vec![];
     let mut hit = 0;
